@@ -453,6 +453,36 @@ def r11(ctx):
     ctx.ok("C12.R11", "crate", "subscriber-channels-are-dropped-never-closed", "%d close() calls on event channels; inbox close seen %d time(s)" % (len(bad), seen_inbox), None)
     ctx.floor("C12.R11", 1)
 
+def r12(ctx):
+    """"its content status": the status an entry is sent with is what the node's content-status callback says *now* - the store
+    actor keeps the callback it was spawned with as given (no wrapper that remembers or rewrites answers) and installs it in
+    every replica it opens"""
+    f = ctx.facts
+    sp = f.body("actor::SyncHandle::spawn")
+    ctx.touch(sp)
+    aggs = [s0 for _, _, s0 in sp.statements() if s0["k"] == "assign" and s0["r"][0] == "agg" and s0["r"][1][0] == "adt" and s0["r"][1][1] == "actor::Actor"]
+    ok, det = False, "%d constructions of Actor in SyncHandle::spawn" % len(aggs)
+    if len(aggs) == 1:
+        names = aggs[0]["r"][1][4]
+        if "content_status_callback" in names:
+            op = aggs[0]["r"][2][names.index("content_status_callback")]
+            org = {origin_summary(o) for o in trace(sp, op, through_calls=False)}
+            ok = org == {"arg:content_status_callback"}
+            det = "Actor.content_status_callback derives from %s" % sorted(org)
+    ctx.check(ok, "C12.R12", sp.path, "content-status-callback-kept-as-given", det + "; spec: the parameter itself", sp.sp)
+    # ... and every replica the actor opens gets that callback
+    setters = [(b, t) for b in f.bodies.values() if b.path.startswith("actor::") for _, t in b.calls() if callee_matches(t, r"sync::ReplicaInfo::set_content_status_callback$")]
+    okc = bool(setters)
+    detc = []
+    for b, t in setters:
+        org = {origin_summary(o) for o in trace(b, t["a"][1])}
+        fp = {".".join(mir.field_path(o)) for o in trace(b, t["a"][1])}
+        good = any("content_status_callback" in x for x in org | fp) or any("upvar" in x or "arg" in x for x in org)
+        okc = okc and good
+        detc.append("%s <- %s" % (b.path.split("::")[-1], sorted(org | fp)))
+    ctx.check(okc, "C12.R12", "actor::Actor::open", "replicas-get-the-actor's-callback", "; ".join(detc) or "no call of set_content_status_callback in the actor", None)
+    ctx.floor("C12.R12", 2)
+
 def run(ctx):
     ctx.run_rule("C12.R1", r1)
     ctx.run_rule("C12.R2", r2)
@@ -465,3 +495,4 @@ def run(ctx):
     ctx.run_rule("C12.R9", r9)
     ctx.run_rule("C12.R10", r10)
     ctx.run_rule("C12.R11", r11)
+    ctx.run_rule("C12.R12", r12)
